@@ -153,7 +153,7 @@ def cargo_build(crate_dir, release=False, timeout=3000):
     dst = os.path.join(crate_dir, "Cargo.lock")
     if not os.path.exists(dst):
         shutil.copy(lock, dst)
-    cmd = ["timeout", str(timeout), "cargo", "build", "--offline"] + (["--release"] if release else [])
+    cmd = ["timeout", str(timeout), "cargo", "build", "--offline"] + (["--profile", "stack"] if release == "stack" else ["--release"] if release else [])
     rc, out, _ = run(cmd, cwd=crate_dir, timeout=timeout + 60)
     if rc != 0:
         # a stale lock (dependency set of /repo changed): retry from /repo's lock
@@ -163,7 +163,7 @@ def cargo_build(crate_dir, release=False, timeout=3000):
 
 
 def harness_bin(release=False):
-    return os.path.join(HARNESS, "target", "release" if release else "debug", "harness")
+    return os.path.join(HARNESS, "target", "stack" if release == "stack" else "release" if release else "debug", "harness")
 
 
 def build_harness(release=False):
@@ -378,7 +378,8 @@ def coqchk_stage(propfile):
 
 
 def extra_setup_steps():
-    return []
+    # the builds the C01 stack sweep runs on: imap-proto without optimisation (what a user's debug build is) and release
+    return [lambda: build_harness("stack"), lambda: build_harness(True)]
 
 
 def differential(harness_args, driver_cmd, same=None, release=False, limit=5):
